@@ -274,33 +274,7 @@ func judge(h *history, out *sim.Outcome) *simrt.Violation {
 			}
 		}
 		V = append(V, st)
-		// the refresh must ask about every account it knows
-		if o := opByIdx[c.Op]; o != nil && o.Kind != "vrefresh" {
-			if st := aOfOp[c.Op]; st != nil {
-				for x, a := range pl.Accts {
-					if st.known[x] == yes && !c.Requested[x] {
-						return Viol("C13/validator-refresh-misses-known-account", "op %d: validators request lacks the key of known account %q (asked for %d keys of accounts, %d other keys)", c.Op, a.full(), len(c.Requested), c.ReqOther)
-					}
-				}
-			}
-		}
 	}
-	for _, o := range h.ops {
-		if o.Kind == "vrefresh" || !o.Done || o.Err != nil {
-			continue
-		}
-		if callsOfOp[o.Idx] > 1 {
-			return Viol("C13/validators-requested-twice", "op %d asked the beacon node for validators %d times", o.Idx, callsOfOp[o.Idx])
-		}
-		if st := aOfOp[o.Idx]; st != nil && callsOfOp[o.Idx] == 0 {
-			for x, a := range pl.Accts {
-				if st.known[x] == yes {
-					return Viol("C13/validators-not-refreshed", "op %d: refresh with known account %q did not ask the beacon node for validators", o.Idx, a.full())
-				}
-			}
-		}
-	}
-
 	// ---- lookups ----
 	adm := func(starts, ends []int, c, r int) (lo, hi int) {
 		for k := range starts {
@@ -502,10 +476,11 @@ func judge(h *history, out *sim.Outcome) *simrt.Violation {
 			if !must {
 				continue
 			}
+			wiped := len(l.Res) == 0 // a wipe leaves nothing at all
 			switch {
-			case retainedA:
+			case retainedA && wiped:
 				return Viol("C13/empty-account-refresh-wiped-known", "%s: result %v lacks %s", where, resString(l.Res), describe(x))
-			case retainedV:
+			case retainedV && wiped:
 				return Viol("C13/empty-validator-refresh-wiped-known", "%s: result %v lacks %s", where, resString(l.Res), describe(x))
 			case isSync:
 				return Viol("C13/eligible-account-missing-from-sync-set", "%s: result %v lacks %s", where, resString(l.Res), describe(x))
@@ -554,6 +529,35 @@ func judge(h *history, out *sim.Outcome) *simrt.Violation {
 			}
 		}
 	}
+	for _, c := range h.vals {
+		// the refresh must ask about every account it knows
+		if o := opByIdx[c.Op]; o != nil && o.Kind != "vrefresh" {
+			if st := aOfOp[c.Op]; st != nil {
+				for x, a := range pl.Accts {
+					if st.known[x] == yes && !c.Requested[x] {
+						return Viol("C13/validator-refresh-misses-known-account", "op %d: validators request lacks the key of known account %q (asked for %d keys of accounts, %d other keys)", c.Op, a.full(), len(c.Requested), c.ReqOther)
+					}
+				}
+			}
+		}
+	}
+	// ---- the refresh itself: the validators of every known account are asked for ----
+	for _, o := range h.ops {
+		if o.Kind == "vrefresh" || !o.Done || o.Err != nil {
+			continue
+		}
+		if callsOfOp[o.Idx] > 1 {
+			return Viol("C13/validators-requested-twice", "op %d asked the beacon node for validators %d times", o.Idx, callsOfOp[o.Idx])
+		}
+		if st := aOfOp[o.Idx]; st != nil && callsOfOp[o.Idx] == 0 {
+			for x, a := range pl.Accts {
+				if st.known[x] == yes {
+					return Viol("C13/validators-not-refreshed", "op %d: refresh with known account %q did not ask the beacon node for validators", o.Idx, a.full())
+				}
+			}
+		}
+	}
+
 	for x := range pl.Accts {
 		if match[x] == maybe {
 			out.Probes["obs:ambiguous-specifier-not-compared"]++
